@@ -232,6 +232,28 @@ func (w *rWorld) settle() {
 	}
 }
 
+// routingBatch: task-bearing batches of every source travel with the SAME (default) priority, as on a real replication
+// lane — code that treats messages of one priority alike (merging, ordering) must meet batches of different sources it
+// can treat alike; their source is recognised by the tasks' labels. Only watermark-only batches, which carry nothing
+// else the harness could recognise them by, are tagged with their source in the Priority field.
+func routingBatch(src int, high int64, tasks []*replicationpb.ReplicationTask) *repResp {
+	if len(tasks) > 0 {
+		return msgResp(high, tasks...)
+	}
+	return msgRespFrom(src, high)
+}
+
+// msgSource: the source stream a message delivered to a target came from (-1: unknown)
+func msgSource(msgs *replicationpb.WorkflowReplicationMessages) int {
+	if tks := msgs.GetReplicationTasks(); len(tks) > 0 {
+		if tks[0].RawTaskInfo != nil {
+			return int(tks[0].RawTaskInfo.Version % 1000)
+		}
+		return -1
+	}
+	return int(msgs.GetPriority()) - 100
+}
+
 func (w *rWorld) violation(prop, what string, extra map[string]any) {
 	v := map[string]any{"prop": prop, "what": what}
 	for k, x := range extra {
@@ -283,7 +305,7 @@ func (w *rWorld) batch(s int, high int64, tasks [][2]int64) {
 	}
 	synctest.Wait() // every goroutine is parked: a non-blocking send succeeds iff the receiver sits in Recv
 	select {
-	case cs.in <- ev[repResp]{v: msgRespFrom(s, high, pts...)}:
+	case cs.in <- ev[repResp]{v: routingBatch(s, high, pts)}:
 		w.lastHigh[s] = high
 		if len(tasks) == 0 && high > w.maxHigh[s] {
 			w.maxHigh[s] = high
@@ -319,7 +341,7 @@ func (w *rWorld) observe() (string, string) {
 				if len(msgs.GetReplicationTasks()) > 0 {
 					kind = "t"
 				}
-				srcs = append(srcs, fmt.Sprintf("%d%s", int(msgs.GetPriority())-100, kind))
+				srcs = append(srcs, fmt.Sprintf("%d%s", msgSource(msgs), kind))
 				w.noteTaken(ti, msgs)
 				w.monitorMsg(t, ti, msgs)
 				items = append(items, strings.Join(pairs, ",")+fmt.Sprintf("/%d", h))
@@ -477,7 +499,7 @@ func (w *rWorld) confirmed(rt *rTask, src int) (bool, string) {
 // its last original id; the original watermark of a watermark message is rewritten in transit — it is at most the largest
 // one an empty batch of that source has announced so far (only those travel on as watermark messages, broadcast or replayed).
 func (w *rWorld) noteTaken(ti *tgtInc, msgs *replicationpb.WorkflowReplicationMessages) {
-	src := int(msgs.GetPriority()) - 100
+	src := msgSource(msgs)
 	if src < 0 || src >= w.ns {
 		return
 	}
